@@ -13,6 +13,7 @@ structure Item where
   constructing : Bool := false
   lastRelease : Nat := 0           -- when the reference count last dropped to 0 (expiry clock)
   recycling : Nat := 0             -- threads inside a recycling release of this key
+  lastFail : Option Nat := none    -- when a constructor of this key last failed
   deriving Repr, Inhabited
 
 structure St where
@@ -29,6 +30,8 @@ inductive Ev where
   | ctorBegin (k : Nat)
   | ctorEnd (k : Nat) (obj : Option Nat)
   | retAcquire (k : Nat) (obj : Option Nat)
+  /-- acquire returned null *without having run the caller's constructor* (failure cooldown `cd`) -/
+  | retAcquireNoCtor (k cd : Nat)
   | callRelease (k : Nat) (recycle : Bool)
   | retRelease (k : Nat) (recycle : Bool)
   | dtor (k obj : Nat)
@@ -54,6 +57,11 @@ def pre (s : St) (e : Ev) : Option String :=
     match obj with
     | some o => if x.live ≠ some o then some "acquire returned an object that is not the key's live object" else none
     | none => if x.live.isSome ∧ !x.constructing then some "acquire returned null although the key has a live object" else none
+  | .retAcquireNoCtor k cd =>
+    -- only a failure younger than the caller's cooldown may answer for the constructor
+    match (s.item k).lastFail with
+    | some f => if s.now < f + cd then none else some "acquire returned null without trying the constructor although no failure lies within the cooldown"
+    | none => some "acquire returned null without trying the constructor although no construction ever failed"
   | .callRelease k _ =>
     if (s.item k).refcnt = 0 then some "program error: release without a reference" else none
   | .retRelease k recycle =>
@@ -72,11 +80,14 @@ def eff (s : St) (e : Ev) : St :=
   match e with
   | .init l => { lifespan := l }
   | .ctorBegin k => { s with item := upd s.item k { s.item k with constructing := true } }
-  | .ctorEnd k obj => { s with item := upd s.item k { s.item k with constructing := false, live := obj } }
+  | .ctorEnd k obj =>
+    let lf : Option Nat := if obj.isNone then some s.now else (s.item k).lastFail
+    { s with item := upd s.item k { s.item k with constructing := false, live := obj, lastFail := lf } }
   | .retAcquire k obj =>
     match obj with
     | some _ => { s with item := upd s.item k { s.item k with refcnt := (s.item k).refcnt + 1 } }
     | none => s
+  | .retAcquireNoCtor _ _ => s
   | .callRelease k recycle =>
     let x := s.item k
     { s with item := upd s.item k { x with refcnt := x.refcnt - 1,
